@@ -1973,3 +1973,42 @@ Proof.
   assert (E : bpow solid_witness_state = 6) by (vm_compute; reflexivity).
   split; [rewrite E; lia|]. exists 12. split; [vm_compute; reflexivity|]. rewrite E. lia.
 Qed.
+
+(* ================================================================ round 5: boundary of the addressable space, full files
+   Concrete reachable states for the statements of Fsm_hdr_proofs.v (exported through Properties_C10/C11).
+   full_file_state: new file (64-byte blocks, 32768 blocks), both free runs taken by exact-fit requests. *)
+Definition full_file_state : fsm := run (fresh v_fixed false) [OAlloc 3968 128 11 false; OAlloc 2088960 8192 11 false].
+Lemma pair_eq : forall (p : Z * fsm) a b, fst p = a -> snd p = b -> p = (a, b).
+Proof. intros [x y] a b. simpl. intros -> ->. reflexivity. Qed.
+Lemma boundary_on_full_file :
+  let s := full_file_state in
+  nbits s = 32768 /\ tree s = [] /\
+  deallocate s 2097088 128 = (IWFS_ERROR_FSM_SEGMENTATION, s) /\ deallocate s 2097152 64 = (IWFS_ERROR_FSM_SEGMENTATION, s) /\
+  fst (deallocate s 2097088 64) = 0 /\ tree (snd (deallocate s 2097088 64)) = [(1, 32767)].
+Proof.
+  cbv zeta. split; [vm_compute; reflexivity|]. split; [vm_compute; reflexivity|].
+  (* the two refusals: the state is not read back (32768 bits), it is the theorem that says "unchanged" *)
+  split; [|split].
+  - apply pair_eq; [vm_compute; reflexivity|]. apply release_beyond_end_refused. apply Z.ltb_lt. vm_compute. reflexivity.
+  - apply pair_eq; [vm_compute; reflexivity|]. apply release_beyond_end_refused. apply Z.ltb_lt. vm_compute. reflexivity.
+  - split; vm_compute; reflexivity.
+Qed.
+
+(* relocated_full_state: one request the bitmap cannot hold (it doubles; the new area is carved out of the free space at
+   byte 8192, the old one released), then every remaining free run taken; no sync anywhere *)
+Definition relocated_full_state : fsm :=
+  run (fresh v_fixed false) [OAlloc 2089024 0 9 false; OAlloc 8064 128 11 false; OAlloc 2088896 2105408 11 false].
+Lemma full_file_after_relocation :
+  let s := relocated_full_state in
+  tree s = [] /\ (bmoff s, bmlen s) = (8192, 8192) /\ hdr_current s = true /\
+  (let r := state_of (step s (OCloseReopen false false false)) in
+   (bmoff r, bmlen r, tree r) = (8192, 8192, []) /\ bm r = bm s).
+Proof.
+  cbv zeta.
+  assert (Ht : tree relocated_full_state = []) by (vm_compute; reflexivity).
+  assert (Hh : hdr_current relocated_full_state = true) by (vm_compute; reflexivity).
+  split; [exact Ht|]. split; [vm_compute; reflexivity|]. split; [exact Hh|].
+  destruct (full_file_close_reopen relocated_full_state false false false Ht (proj1 (hs_iff _) Hh)) as (Ec & Eb & _).
+  unfold step. rewrite Ec. cbv beta iota. unfold state_of.
+  split; [vm_compute; reflexivity|exact Eb].
+Qed.
